@@ -8,14 +8,60 @@ uses visitor.rs.
 import random
 
 from .. import build, core
-from ..slicegen import gen, printer
+from ..slicegen import expect, gen, printer
 from ..slicegen.model import Alias, Custom, Enum, Interface, Struct
 
 PROP = "C20"
 
 
+def tag_of(d):
+    for k in ("struct", "enum", "custom", "primitive"):
+        if k in d:
+            return "%s:%s" % (k, d[k])
+    for k in ("sequence", "dictionary", "result"):
+        if k in d:
+            return k
+    return "unpatched"
+
+
+def model_type_tags(et, out):
+    """Pre-order list of what each presented type reference must designate, from the model's expected type (expect.exp_type)."""
+    d = et["def"]
+    out.append(tag_of(d))
+    if "sequence" in d:
+        model_type_tags(d["sequence"], out)
+    elif "dictionary" in d:
+        model_type_tags(d["dictionary"][0], out)
+        model_type_tags(d["dictionary"][1], out)
+    elif "result" in d:
+        model_type_tags(d["result"][0], out)
+        model_type_tags(d["result"][1], out)
+    return out
+
+
+def model_file_tags(ef):
+    """All type references of one expected file dump, in presentation order."""
+    out = []
+    for d in ef["contents"]:
+        k = d["kind"]
+        if k == "struct":
+            for m in d["fields"]:
+                model_type_tags(m["type"], out)
+        elif k == "interface":
+            for o in d["operations"]:
+                for p in o["params"] + o["returns"]:
+                    model_type_tags(p["type"], out)
+        elif k == "enum":
+            for e in d["enumerators"]:
+                for m in e.get("fields") or []:
+                    model_type_tags(m["type"], out)
+        elif k == "alias":
+            model_type_tags(d["underlying"], out)
+    return out
+
+
 def type_trace(t, out):
-    out.append(["type_ref", t["span"]])
+    out.append(["type_ref", t["span"], tag_of(t["def"])])
     d = t["def"]
     if "sequence" in d:
         type_trace(d["sequence"], out)
@@ -90,15 +136,23 @@ def count_type_exprs(t):
 
 def plan(tier, seed):
     n = 15000 if tier == "quick" else 150000
-    return [("random", n // 32, i) for i in range(32)]
+    return [("random", n // 32, i) for i in range(32)] + [("chains", n // 64, i) for i in range(16)]
 
 
 def run_shard(ctx, spec):
-    _, count, idx = spec
-    rng = ctx.rng("r/%d" % idx)
+    kind, count, idx = spec
+    rng = ctx.rng("%s/%d" % (kind, idx))
     progs, reqs = [], []
     for _ in range(count):
-        prog = gen.valid_program(random.Random(rng.random()), max_files=4, type_depth=3)
+        if kind == "chains":
+            # alias chains that cross modules, every link spelled relative to its own module, same-named decoys elsewhere: the
+            # types presented below a use of the first alias are those of the *last* link's target
+            from . import c03
+            prog = c03.chain_program(random.Random(rng.random()), rng.randint(1, 4), rng.choice(c03.ENDS),
+                                     rng.choice(["field", "parameter", "return", "alias", "seq-elem", "dict-value", "enumerator-field"]))
+            ctx.stats["alias_chain_programs"] += 1
+        else:
+            prog = gen.valid_program(random.Random(rng.random()), max_files=4, type_depth=3)
         style = rng.choice(["plain", "dense", "random", "lines"])
         texts = printer.print_program(prog, [printer.Layout(random.Random(rng.random()), style) for _ in prog.files])
         progs.append((prog, texts))
@@ -121,6 +175,7 @@ def judge(ctx, prog, texts, r):
     if r["codes"]:
         ctx.stats["skipped_program_with_diagnostics"] += 1   # C02 decides those
         return
+    expected = expect.exp_program(prog)
     all_defs_elsewhere = {}
     for fi, f in enumerate(r["files"]):
         for t in reference_trace(f):
@@ -161,7 +216,18 @@ def judge(ctx, prog, texts, r):
                         "file %d: callback %d is %r, reference traversal says %r" % (fi, i, trace[i] if i < len(trace) else None,
                                                                                       ref[i] if i < len(ref) else None), replay)
             continue
-        # the number of type references presented must cover every type expression written for members/aliases of this file
+        # (3) against the model again: every presented type reference designates what the scoping rules say the written
+        # type expression designates (aliases expanded by the reference resolver, not by the implementation)
+        want_tags = model_file_tags(expected[fi])
+        got_tags = [t[2] for t in trace if t[0] == "type_ref"]
+        if got_tags != want_tags:
+            i = next((i for i, (a, b) in enumerate(zip(got_tags, want_tags)) if a != b), min(len(got_tags), len(want_tags)))
+            replay["file_index"] = fi
+            replay["observed_types"] = got_tags[max(0, i - 2):i + 3]
+            replay["expected_types"] = want_tags[max(0, i - 2):i + 3]
+            ctx.violate("visitor-presents-wrong-type", "file %d: type reference %d presented is %r, the model says %r"
+                        % (fi, i, got_tags[i] if i < len(got_tags) else None, want_tags[i] if i < len(want_tags) else None), replay)
+            continue
         ntypes = sum(1 for t in trace if t[0] == "type_ref")
         ctx.stats["type_refs_presented"] += ntypes
         ctx.stats["entities_presented"] += len(ents)
@@ -174,9 +240,11 @@ def main(tier, seed):
         run, "exploration",
         rule=("case = one generated valid program (<= 4 files, every definition kind, anonymous types nested to depth 3, aliases of "
               "anonymous types, cross-file references) whose files are each walked with a recording visitor; the callback sequence "
-              "is compared with the declared entities of the model and with the traversal derived from the AST dump. "
+              "is compared with the declared entities of the model, with the traversal derived from the AST dump, and - type reference "
+              "by type reference - with what the model's own resolver says each written type designates. A second family walks "
+              "alias chains of length 1-4 that cross modules (relative spellings, same-named decoys). "
               "distinct_nontrivial = distinct programs"),
-        required={"files_walked": 500, "callbacks": 5000, "type_refs_presented": 2000, "entities_presented": 2000},
+        required={"alias_chain_programs": 1000, "files_walked": 500, "callbacks": 5000, "type_refs_presented": 2000, "entities_presented": 2000},
         assumptions=["type references nested inside an alias's anonymous type are presented again at every use of the alias "
                      "('the types nested inside it, to any depth')",
                      "enum underlying types and interface bases are not type-reference callbacks (the statement lists fields, "
